@@ -72,6 +72,25 @@ Definition is_char_boundary (l : bytes) (k : nat) : bool :=
          end
   end.
 
+(* `while !content.is_char_boundary(offset) { offset -= 1; }` (commit 06ea4f6).  Index 0 is a
+   boundary, so the loop stops at 0 at the latest; the O branch of the inner match is
+   unreachable (CursorProofs.floor_char_boundary_spec). *)
+Fixpoint floor_char_boundary (content : bytes) (k : nat) : nat :=
+  if is_char_boundary content k then k
+  else match k with
+       | O => O
+       | S k' => floor_char_boundary content k'
+       end.
+
+(* the value of `offset` after each `offset -= 1` of that loop, in Z *)
+Fixpoint floor_subs (content : bytes) (k : nat) : list Z :=
+  if is_char_boundary content k then []
+  else (Z.of_nat k - 1)%Z ::
+       match k with
+       | O => []
+       | S k' => floor_subs content k'
+       end.
+
 (* ------------------------------------------------------------------ *)
 (* before formatting: process_cursors *)
 
@@ -272,6 +291,27 @@ Definition kept_len (rs : rsettings) (p : ftoken) (nla : N) : N :=
 (* (col as usize).clamp(lo, hi); Rust asserts lo <= hi *)
 Definition clamp (x lo hi : N) : N := if x <? lo then lo else if hi <? x then hi else x.
 
+(* commit c3b0c3f, same-line branch, ignored tokens only:
+     while !leading_ws.is_char_boundary(leading_ws.len() - back) { back += 1; }
+   The index leading_ws.len() - back walks DOWN to a character boundary of the verbatim
+   whitespace, i.e. it is floor_char_boundary of the initial index; back = len - index.
+   The initial index is computed in Z: a negative value = usize underflow of `len - back`
+   (CursorProofs.whitespace_no_underflow shows it cannot happen). *)
+Definition ws_back_adjust (p : ftoken) (back0 : Z) : Z :=
+  if f_ignored (snd p) then
+    let lws := t_ws (fst p) in
+    let i0 := (Z.of_N (blen lws) - back0)%Z in
+    (Z.of_N (blen lws) - Z.of_nat (floor_char_boundary lws (Z.to_nat i0)))%Z
+  else back0.
+
+(* the values of `leading_ws.len() - back`, one per evaluation of the loop condition *)
+Definition ws_back_subs (p : ftoken) (back0 : Z) : list Z :=
+  if f_ignored (snd p) then
+    let lws := t_ws (fst p) in
+    let i0 := (Z.of_N (blen lws) - back0)%Z in
+    i0 :: floor_subs lws (Z.to_nat i0)
+  else [].
+
 (* the `match cursor.tok_pos` of relocate_cursors: the new cursor as a mathematical integer,
    before the final `as u32` *)
 Definition relocate_at (rs : rsettings) (toks : list ftoken) (idx : nat) (p : ftoken) (pos : tokpos) : Z :=
@@ -279,12 +319,16 @@ Definition relocate_at (rs : rsettings) (toks : list ftoken) (idx : nat) (p : ft
   let clen := blen (t_content (fst p)) in
   match pos with
   | PContent off =>
-      (* new_token_offset as u32 + offset.min(len as u32): u32 addition; the unwrapped sum is
-         returned (wrapping new_token_offset first does not change the result mod 2^32) *)
-      (nto + Z.of_N (N.min off (u32 clen)))%Z
+      (* offset = (offset as usize).min(content.len()), stepped down to a char boundary of the
+         NEW content; (new_token_offset + offset) as u32 *)
+      let k := floor_char_boundary (t_content (fst p)) (N.to_nat (N.min off clen)) in
+      (nto + Z.of_nat k)%Z
   | PMultiline rc nla =>
       let ofe := offset_from_end (t_content (fst p)) rc nla in
-      (nto + Z.of_N clen - Z.of_N (N.min ofe clen))%Z
+      (* offset = content.len() - offset_from_end.min(content.len()), stepped down likewise *)
+      let k0 := (Z.of_N clen - Z.of_N (N.min ofe clen))%Z in
+      let k := floor_char_boundary (t_content (fst p)) (Z.to_nat k0) in
+      (nto + Z.of_nat k)%Z
   | PWhitespace col nla =>
       let nl := f_nl (snd p) in
       if 0 <? N.min nla nl then
@@ -294,7 +338,8 @@ Definition relocate_at (rs : rsettings) (toks : list ftoken) (idx : nat) (p : ft
         let (wl, break_found) := nonbreaking_ws_len rs p in
         let col_ws_start := if break_found then 0 else col_for_token_end_post_fmt rs toks idx in
         let col_start := col_ws_start + wl in
-        (nto - (Z.of_N col_start - Z.of_N (clamp col col_ws_start col_start)))%Z
+        let back0 := (Z.of_N col_start - Z.of_N (clamp col col_ws_start col_start))%Z in
+        (nto - ws_back_adjust p back0)%Z
   end.
 
 Definition relocate (rs : rsettings) (toks : list ftoken) (idx : nat) (pos : tokpos) : option Z :=
@@ -312,10 +357,11 @@ Definition relocate_subs (rs : rsettings) (toks : list ftoken) (idx : nat) (p : 
   let nto := Z.of_N (offset_for_token rs toks idx) in
   let clen := blen (t_content (fst p)) in
   match pos with
-  | PContent _ => []
+  | PContent off => floor_subs (t_content (fst p)) (N.to_nat (N.min off clen))
   | PMultiline rc nla =>
       let ofe := offset_from_end (t_content (fst p)) rc nla in
-      [(nto + Z.of_N clen - Z.of_N (N.min ofe clen))%Z]
+      let k0 := (Z.of_N clen - Z.of_N (N.min ofe clen))%Z in
+      k0 :: floor_subs (t_content (fst p)) (Z.to_nat k0)
   | PWhitespace col nla =>
       let nl := f_nl (snd p) in
       if 0 <? N.min nla nl then
@@ -325,7 +371,7 @@ Definition relocate_subs (rs : rsettings) (toks : list ftoken) (idx : nat) (p : 
         let col_ws_start := if break_found then 0 else col_for_token_end_post_fmt rs toks idx in
         let col_start := col_ws_start + wl in
         let d := (Z.of_N col_start - Z.of_N (clamp col col_ws_start col_start))%Z in
-        [d; (nto - d)%Z]
+        d :: ws_back_subs p d ++ [(nto - ws_back_adjust p d)%Z]
   end.
 
 (* process_cursors ; relocate_cursors for one cursor.  None = cursor left unchanged. *)
